@@ -43,6 +43,9 @@ pub enum STy {
     Struct(Vec<(&'static str, STy)>),
     /// `deserialize_any`: scalars as the untyped target, children are `Spanned<TreeInner>`
     TreeInner,
+    /// `std::num::NonZero{U,I}{bits}` (signed, bits): the consumer that raises a Serde error WITHOUT location
+    /// (`invalid_value` for 0) at the node itself
+    NonZero(bool, u32),
 }
 
 pub fn tree() -> STy {
@@ -70,6 +73,7 @@ impl STy {
             STy::Map(t) => format!("M {}", t.tokens()),
             STy::Struct(fs) => format!("T {}{}", fs.len(), fs.iter().map(|(n, t)| format!(" {} {}", hex(n), t.tokens())).collect::<String>()),
             STy::TreeInner => "R".into(),
+            STy::NonZero(s, bits) => format!("Z {} {bits}", b(*s)),
         }
     }
 }
@@ -147,6 +151,15 @@ impl<'de, 'a> DeserializeSeed<'de> for SSeed<'a> {
                 d.deserialize_struct("S", Box::leak(names.into_boxed_slice()), SV(self.0))
             }
             STy::TreeInner => d.deserialize_any(SV(self.0)),
+            STy::NonZero(signed, bits) => {
+                use std::num::*;
+                macro_rules! nz { ($t:ty) => { <$t>::deserialize(d).map(|v| SVal::Leaf(Val::Int(v.get() as i128))) } }
+                match (*signed, *bits) {
+                    (false, 8) => nz!(NonZeroU8), (false, 16) => nz!(NonZeroU16), (false, 32) => nz!(NonZeroU32), (false, 64) => nz!(NonZeroU64),
+                    (true, 8) => nz!(NonZeroI8), (true, 16) => nz!(NonZeroI16), (true, 32) => nz!(NonZeroI32), (true, 64) => nz!(NonZeroI64),
+                    _ => Err(de::Error::custom("locs: unsupported NonZero width")),
+                }
+            }
         }
     }
 }
@@ -797,12 +810,14 @@ struct G<'r> {
     in_defs: bool,
     /// scalar leaves created for typed targets: node id, leaf type
     leaves: Vec<(usize, Ty)>,
+    /// scalar leaves created for `NonZero*` targets (never 0 in the generated document): node id
+    nz_leaves: Vec<usize>,
     allow_alias: bool,
 }
 
 impl<'r> G<'r> {
     fn new(rng: &'r mut Rng) -> Self {
-        G { rng, next_id: 0, next_anchor: 0, next_key: 0, done: vec![], pool: vec![], defs: vec![], in_defs: false, leaves: vec![], allow_alias: true }
+        G { rng, next_id: 0, next_anchor: 0, next_key: 0, done: vec![], pool: vec![], defs: vec![], in_defs: false, leaves: vec![], nz_leaves: vec![], allow_alias: true }
     }
     fn id(&mut self) -> usize { self.next_id += 1; self.next_id - 1 }
     fn anchor_name(&mut self) -> String {
@@ -1022,6 +1037,12 @@ impl<'r> G<'r> {
                 self.leaves.push((n.id(), t.clone()));
                 n
             }
+            STy::NonZero(signed, bits) => {
+                let text = if *signed { *self.rng.pick(&["12", "-7", "1", "+5", "100"]) } else if *bits == 8 { *self.rng.pick(&["7", "1", "200", "255", "0x10"]) } else { *self.rng.pick(&["7", "1", "200", "65535", "0x10"]) };
+                let n = self.scalar(text, &[0], if depth > 0 { 1 } else { 0 });
+                self.nz_leaves.push(n.id());
+                n
+            }
             STy::TreeInner => {
                 let save = self.allow_alias;
                 let n = self.node(depth, depth + 2);
@@ -1100,6 +1121,11 @@ fn gen_sty(rng: &mut Rng, depth: usize) -> STy {
     let leaf_ty = |rng: &mut Rng| -> Ty {
         match rng.below(7) { 0 => Ty::Bool, 1 => Ty::Int(true, 32), 2 => Ty::Int(false, 8), 3 => Ty::Float(64), 4 => Ty::Char, 5 => Ty::Int(true, 64), _ => Ty::Str }
     };
+    if rng.chance(1, 8) {
+        // a consumer that raises a location-less Serde error (`invalid_value`) when the document holds 0
+        let nz = rng.pick(&[STy::NonZero(false, 8), STy::NonZero(false, 8), STy::NonZero(true, 32), STy::NonZero(false, 64), STy::NonZero(true, 16)]).clone();
+        return match rng.below(4) { 0 => sp(nz), 1 => STy::Option(Box::new(nz)), _ => nz };
+    }
     if depth >= 3 || rng.chance(2, 5) {
         return match rng.below(6) { 0 => leaf(leaf_ty(rng)), 1 => STy::Option(Box::new(sp(leaf(leaf_ty(rng))))), 2 => sp(STy::Option(Box::new(leaf(leaf_ty(rng))))), 3 => tree(), _ => sp(leaf(leaf_ty(rng))) };
     }
@@ -1201,7 +1227,7 @@ impl<'a> Ctx<'a> {
         let Some((n, c)) = self.resolve(node, ctx) else { return E::Unknown };
         match sty {
             STy::Spanned(t) => E::Sp { r: c.unwrap_or(n.id()), d: n.id(), inner: Box::new(self.expect_via(t, node, ctx, fuel - 1, via)) },
-            STy::Leaf(_) => match n { N::Scalar { .. } => E::Leaf { r: c.unwrap_or(n.id()), d: n.id(), via: via.clone() }, _ => E::Unknown },
+            STy::Leaf(_) | STy::NonZero(..) => match n { N::Scalar { .. } => E::Leaf { r: c.unwrap_or(n.id()), d: n.id(), via: via.clone() }, _ => E::Unknown },
             STy::Option(t) => if Self::is_null(n) { E::None } else { E::Some(Box::new(self.expect_via(t, node, ctx, fuel - 1, via))) },
             STy::Seq(t) => match n {
                 N::Seq { items, .. } => { via.push(n.id()); let r = E::Seq(items.iter().map(|i| self.expect_via(t, i, c, fuel - 1, via)).collect()); via.pop(); r }
@@ -1302,7 +1328,8 @@ pub fn err_tok(e: &serde_saphyr::Error) -> String {
     let none = "L0.0.0.0.-.-";
     match e {
         Error::SerdeInvalidType { .. } => format!("err invalid_type {none} {none}"),
-        Error::SerdeInvalidValue { .. } => format!("err invalid_value {none} {none}"),
+        // raised by the `NonZero*` consumers only, with the modelled fallback location (the value / element guard): compared in full
+        Error::SerdeInvalidValue { location, .. } => format!("err invalid_value {} {none}", loc_tok(location)),
         Error::SerdeUnknownVariant { .. } => format!("err unknown_variant {none} {none}"),
         Error::SerdeUnknownField { .. } => format!("err unknown_field {none} {none}"),
         Error::SerdeMissingField { .. } => format!("err missing_field {none} {none}"),
@@ -1711,6 +1738,7 @@ fn generate(a: &Args) -> i32 {
         };
         let n_ids = g.next_id;
         let leaves = std::mem::take(&mut g.leaves);
+        let nz_leaves = std::mem::take(&mut g.nz_leaves);
         let layout_rng = rng.clone();
         let rd = render(&doc, n_ids, lay, &mut rng);
         sink.count(&format!("family.{}", ["tree", "derived", "typed"][family]));
@@ -1734,6 +1762,31 @@ fn generate(a: &Args) -> i32 {
                 let mut lr = layout_rng.clone();
                 let rdm = render(&m, n_ids + 1, lay, &mut lr);
                 mutant(&mut sink, &mut o, &sty, &m, &rdm, leaf_id);
+            }
+        }
+
+        // ---- every (sampled) `NonZero*` leaf in turn replaced by 0: a Serde error WITHOUT location raised while that
+        // mapping value / sequence element is read must be reported where a span-carrying value at the leaf is
+        if family == 2 && accepted && !nz_leaves.is_empty() {
+            let k = if a.thorough { 6 } else { 3 };
+            for _ in 0..k.min(nz_leaves.len()) {
+                let leaf_id = nz_leaves[rng.below(nz_leaves.len())];
+                let mut m = doc.clone();
+                let with = N::Scalar { id: leaf_id, text: rng.pick(&["0", "0", "0x0"]).to_string(), style: 0, anchor: None };
+                if !replace_leaf(&mut m, leaf_id, &with) { continue; }
+                let mut lr = layout_rng.clone();
+                let rdm = render(&m, n_ids + 1, lay, &mut lr);
+                sink.count("static_error.mutant");
+                mutant(&mut sink, &mut o, &sty, &m, &rdm, leaf_id);
+                match run_impl(&rdm.input, &sty) {
+                    Ok(Err(e)) => sink.count(&format!("static_error.mutant.{}", crate::errs::kind(crate::errs::unwrap_snippet(&e)))),
+                    Ok(Ok(v)) => {
+                        // not an error when the zero is not delivered to the NonZero type (the leaf sits in a merge source whose key is overridden)
+                        sink.count("static_error.mutant.accepted");
+                        if sink.samples.len() < 60 { sink.samples.push(format!("ZERO-ACCEPTED {:?} => {}", rdm.input, v.tokens().chars().take(200).collect::<String>())); }
+                    }
+                    Err(_) => {}
+                }
             }
         }
 
@@ -1788,8 +1841,35 @@ struct EnumDoc { r: serde::de::IgnoredAny, s: Sh }
 #[allow(dead_code)]
 struct NzDoc { a: u8, k: std::num::NonZeroU8 }
 
+/// the type with every `NonZero*` replaced by the span-carrying plain integer (which accepts 0)
+fn spanned_variant(t: &STy) -> STy {
+    match t {
+        STy::NonZero(s, bits) => sp(leaf(Ty::Int(*s, *bits))),
+        STy::Spanned(x) => sp(spanned_variant(x)),
+        STy::Option(x) => STy::Option(Box::new(spanned_variant(x))),
+        STy::Seq(x) => STy::Seq(Box::new(spanned_variant(x))),
+        STy::Map(x) => STy::Map(Box::new(spanned_variant(x))),
+        STy::Struct(fs) => STy::Struct(fs.iter().map(|(n, x)| (*n, spanned_variant(x))).collect()),
+        other => other.clone(),
+    }
+}
+
+/// the (referenced, defined) pair of the first span-carrying value that holds the integer 0
+fn zero_span(v: &SVal) -> Option<(Location, Location)> {
+    match v {
+        SVal::Spanned(r, d, x) => match &**x { SVal::Leaf(Val::Int(0)) => Some((*r, *d)), other => zero_span(other) },
+        SVal::Some(x) => zero_span(x),
+        SVal::Seq(xs) => xs.iter().find_map(zero_span),
+        SVal::Map(es) => es.iter().find_map(|(_, x)| zero_span(x)),
+        SVal::Struct(fs) => fs.iter().find_map(|(_, x)| zero_span(x)),
+        _ => None,
+    }
+}
+
 /// errors that Serde raises WITHOUT a location while a value is read (`invalid_value` of the `NonZero*` visitors): the
-/// location attached to them must be that of the value node, in mappings as in sequences
+/// location attached to them must be that of the value node — where a span-carrying value at that node reports it: use
+/// site and definition site, through aliases and merges —, in mappings as in sequences. Differential (the model's
+/// fallback rule, `locs sp` with `Z` types) and oracle (against `Spanned<u8>` at the same node, and against the text).
 fn static_error_family(sink: &mut Sink, o: &mut Oracle) {
     let off = |l: &Location| l.span().offset() as usize;
     for text in ["a: 1\nk:   0\n", "{a: 1, k: 0}\n", "a: 1\nk:\n  0\n", "k: 0 # c\na: 2\n"] {
@@ -1812,6 +1892,69 @@ fn static_error_family(sink: &mut Sink, o: &mut Oracle) {
                 o.fail("C16-static-error-position", "a Serde error without location raised while a sequence element is read is not reported at the element", text, format!("{:?}", e.location().map(|l| show(&l))), format!("offset {want}"));
             }
         }
+    }
+
+    // ---- the same through the run-time type descriptions: differential case + comparison with the span-carrying value
+    let nz = || STy::NonZero(false, 8);
+    let u8t = || leaf(Ty::Int(false, 8));
+    let bx = |t: STy| Box::new(t);
+    let ak = || STy::Struct(vec![("a", u8t()), ("k", nz())]);
+    let cases: Vec<(&str, &str, STy)> = vec![
+        ("map/block", "a: 1\nk:   0\n", ak()),
+        ("map/flow", "{a: 1, k: 0}\n", ak()),
+        ("map/next-line", "a: 1\nk:\n  0\n", ak()),
+        ("map/first-comment", "k: 0 # c\na: 2\n", ak()),
+        ("map/crlf-multibyte", "é: 1\r\na: 2\r\nk:   0x0\r\n", ak()),
+        ("map/untyped-keys", "{p: 1, q: 0}\n", STy::Map(bx(nz()))),
+        ("map/second-missing", "k: 0\n", ak()),
+        ("seq/flow", "[1, 0]\n", STy::Seq(bx(nz()))),
+        ("seq/block", "- 1\n-   0\n", STy::Seq(bx(nz()))),
+        ("seq/in-map-in-map", "k: {p: [1, 0]}\n", STy::Struct(vec![("k", STy::Map(bx(STy::Seq(bx(nz())))))])),
+        ("wrapped/spanned", "a: 1\nk:   0\n", STy::Struct(vec![("a", u8t()), ("k", sp(nz()))])),
+        ("wrapped/option", "a: 1\nk:   0\n", STy::Struct(vec![("a", u8t()), ("k", STy::Option(bx(nz())))])),
+        ("wrapped/option-spanned", "[~, 0]\n", STy::Seq(bx(STy::Option(bx(sp(nz())))))),
+        ("alias/value", "a: &z 0\nk: *z\n", ak()),
+        ("alias/element", "a: &z 0\nk: [1, *z]\n", STy::Struct(vec![("a", u8t()), ("k", STy::Seq(bx(nz())))])),
+        ("alias/container", "s: &s [1, 0]\nk: *s\n", STy::Struct(vec![("k", STy::Seq(bx(nz())))])),
+        ("alias/map-container", "s: &s {a: 1, k: 0}\nt: *s\n", STy::Struct(vec![("t", ak())])),
+        ("merge/alias", "m: &m {k: 0}\nt: {<<: *m, a: 1}\n", STy::Struct(vec![("t", ak())])),
+        ("merge/sequence", "m: &m {k: 0}\nn: &n {a: 1}\nt: {<<: [*n, *m]}\n", STy::Struct(vec![("t", ak())])),
+        ("merge/inline", "t: {<<: {k: 0}, a: 1}\n", STy::Struct(vec![("t", ak())])),
+        ("signed", "a: 1\nk: -0\n", STy::Struct(vec![("a", u8t()), ("k", STy::NonZero(true, 32))])),
+        ("wide", "- 18446744073709551615\n- 0\n", STy::Seq(bx(STy::NonZero(false, 64)))),
+    ];
+    for (name, text, sty) in &cases {
+        let (items, _, _, _) = items_tokens(text);
+        let r = run_impl(text, sty);
+        let ans = answer(&r);
+        sink.count(&format!("static_error.typed.{}", ans.split(' ').take(2).collect::<Vec<_>>().join(".")));
+        sink.case(&format!("locs sp {} {} {} | {}", cfg().tokens(false), sty.tokens(), hex(text), items), &ans);
+        let spt = spanned_variant(sty);
+        let r2 = run_impl(text, &spt);
+        sink.case(&format!("locs sp {} {} {} | {}", cfg().tokens(false), spt.tokens(), hex(text), items), &answer(&r2));
+        let want = match &r2 { Ok(Ok(v)) => zero_span(v), _ => None };
+        let Some((wr, wd)) = want else {
+            // `map/second-missing`: the span-carrying variant fails too (missing field `a`) — the zero is met first by the NonZero type
+            if *name != "map/second-missing" { sink.count("HARNESS_FAULT.static_error_reference"); o.fail("C16-harness-seed", &format!("{name}: the span-carrying variant of the static-error case delivers no zero"), text, answer(&r2), "a span-carrying 0".into()); }
+            continue;
+        };
+        match &r {
+            Err(msg) => o.fail("C16-panic", "panic", text, msg.clone(), "no panic".into()),
+            Ok(Ok(v)) => o.fail("C16-static-error-position", &format!("{name}: zero accepted by a NonZero type"), text, v.tokens(), "an error".into()),
+            Ok(Err(e)) => match e.locations() {
+                Some(ls) if ls.reference_location == wr && ls.defined_location == wd && e.location() == Some(wr) => {}
+                other => o.fail(if name.starts_with("seq") { "C16-static-error-position" } else { "C16-static-error-at-map-value-reported-at-key" },
+                                &format!("{name}: a Serde error without location raised while a value is read is not reported where a span-carrying value at that node is"), text,
+                                format!("{} ; locations {:?}", err_tok(e), other.map(|l| (show(&l.reference_location), show(&l.defined_location)))), format!("referenced {} defined {}", show(&wr), show(&wd))),
+            },
+        }
+    }
+    // a top-level call has no guard of its own: the error carries no location at all (differential only)
+    for (text, sty) in [("0\n", nz()), ("0\n", sp(nz())), ("--- 0\n", STy::Option(bx(nz())))] {
+        let (items, _, _, _) = items_tokens(text);
+        let r = run_impl(text, &sty);
+        sink.count("static_error.toplevel");
+        sink.case(&format!("locs sp {} {} {} | {}", cfg().tokens(false), sty.tokens(), hex(text), items), &answer(&r));
     }
 }
 
